@@ -40,6 +40,7 @@ type harnessReg struct {
 	ReachTier   map[string][]string `json:"reach_tier"`
 	Float       string            `json:"float"`
 	MaxAlloc    int64             `json:"max_alloc"`
+	AllocCut    bool              `json:"alloc_cut"`
 	Quick       tierCfg           `json:"quick"`
 	Thorough    tierCfg           `json:"thorough"`
 	Bounds      map[string]string `json:"bounds"` // tier -> text
@@ -140,6 +141,7 @@ func cmdRun(args []string) int {
 	prof := fs.String("cpuprofile", "", "write cpu profile")
 	kconc := fs.Int("k", 64, "concretize bound")
 	maxDec := fs.Int("maxdec", 600, "max decisions")
+	allocCut := fs.Bool("alloccut", false, "representative allocation sizes")
 	fs.Parse(args)
 	if *prof != "" {
 		f, _ := os.Create(*prof)
@@ -159,7 +161,7 @@ func cmdRun(args []string) int {
 	fmt.Printf("loaded %d packages in %v, ssa %v\n", prog.NPkgs, prog.LoadDur, prog.SSADur)
 	known := loadKnown("/verif/known_findings.json")
 	cfg := symgo.HarnessConfig{MaxDecisions: *maxDec, MaxSteps: 20_000_000, MaxPaths: *maxPaths, ConcretizeK: *kconc, SolverMs: 60000,
-		Workers: *workers, SampleEvery: 1, FloatMode: *float, Known: known, Tier: *tier}
+		Workers: *workers, SampleEvery: 1, FloatMode: *float, Known: known, Tier: *tier, AllocCut: *allocCut}
 	rep, err := prog.RunHarness(*name, cfg, solverKind(*solver), *verbose)
 	if err != nil {
 		fmt.Fprintln(os.Stderr, err)
@@ -348,7 +350,7 @@ func cmdCheck(args []string) int {
 				tier = 1
 			}
 			cfg := symgo.HarnessConfig{MaxDecisions: tc.MaxDecisions, MaxSteps: tc.MaxSteps, MaxPaths: tc.MaxPaths, ConcretizeK: tc.ConcretizeK,
-				SolverMs: tc.SolverMs, Workers: tc.Workers, SampleEvery: 1, FloatMode: fm, Known: known, Tier: tier, Seed: seed, MaxAlloc: h.MaxAlloc}
+				SolverMs: tc.SolverMs, Workers: tc.Workers, SampleEvery: 1, FloatMode: fm, Known: known, Tier: tier, Seed: seed, MaxAlloc: h.MaxAlloc, AllocCut: h.AllocCut}
 			o.rep, o.err = prog.RunHarness(n, cfg, symgo.SolverZ3, *verbose)
 			if o.err == nil {
 				fmt.Printf("[%s] %s: paths=%d ends=%v obligations=%d/%d queries=%d solver=%.1fs wall=%.1fs\n", *prop, n, o.rep.Paths, o.rep.Ends, o.rep.Discharged, o.rep.Obligations, o.rep.SolverQueries, o.rep.SolverTime.Seconds(), o.rep.Wall.Seconds())
@@ -371,6 +373,7 @@ func cmdCheck(args []string) int {
 	}
 	var violations []confirmed
 	var knownLines []string
+	knownSeen := map[string]bool{}
 	validated := 0
 	replayMismatch := 0
 	var rp *replayer
@@ -458,6 +461,10 @@ func cmdCheck(args []string) int {
 			}
 			if outcomeMatches(res.Outcome, v) {
 				for _, one := range strings.Split(kid, ",") {
+					if knownSeen[one] {
+						continue
+					}
+					knownSeen[one] = true
 					knownLines = append(knownLines, fmt.Sprintf("KNOWN-FINDING: property=%s %s: %s (harness %s, assertion %s, witness %s)", *prop, one, knownWhat[one], o.name, v.AssertID, compactModel(v.Model)))
 				}
 				validated++
